@@ -57,7 +57,7 @@ def reduce_targets():
 def acc_targets():
     H = 'specs/C09/acc.h'
     out = []
-    TENS = r'tensor_t<nano::tensor_vector_storage_t, double, \d|^nano::tensor\dd_t$|^nano::vector_t$|^nano::tensor_mem_t<double, \d>$'
+    TENS = r'tensor_t<nano::tensor_(vector|carray|marray)_storage_t, double, \d|^nano::tensor\dd_(c?map_)?t$|^nano::vector_(c?map_)?t$|^nano::tensor_mem_t<double, \d>$'
     for tag, st in (('linear', 'struct nv_lacc'), ('gboost', 'struct nv_gacc')):
         src = f'src/{tag}/accumulator.cpp'
         common = dict(self_struct=st, types=[(rf'^nano::{tag}::accumulator_t$', st), (TENS, 'struct nv_tens')],
@@ -65,6 +65,12 @@ def acc_targets():
                       calls=[(r'^operator\+=\|.*\|.*tensor', '(*nv_t_add({&0}, {&1}))'), (r'^operator/=\|.*\|.*tensor', '(*nv_t_div({&0}, {1}))'),
                              (r'^operator=\|.*ArrayWrapper', 'nv_t_fill({0}, {1})')])
         flt = f'{tag}::accumulator_t::'
+        if tag == 'gboost':
+            gm = [(r'^array\|', '(*{self})'), (r'^sum\|', 'nv_t_sum({self})'), (r'^size\|', '{self}->n')] + common['members']
+            gc = common['calls'] + [(r'^operator=\|.*tensor_marray_storage_t, double, 1.*\|', '(*nv_t_copy_to_gx({&0}, {&1}))')]
+            gcm = dict(common, members=gm, calls=gc, types=common['types'] + [(r'ArrayWrapper<', 'struct nv_tens')])
+            out += [Target('gboost_acc_update', [Fn('gboost_acc_update', src, 'update', flt=flt + 'update', **gcm)], H),
+                    Target('gboost_acc_vgrad', [Fn('gboost_acc_vgrad', src, 'vgrad', flt=flt + 'vgrad', **gcm)], H)]
         out += [Target(f'{tag}_acc_clear', [Fn(f'{tag}_acc_clear', src, 'clear', flt=flt + 'clear', **common)], H),
                 Target(f'{tag}_acc_add', [Fn(f'{tag}_acc_add', src, 'operator+=', flt=flt + 'operator+=', **common)], H),
                 Target(f'{tag}_acc_div', [Fn(f'{tag}_acc_div', src, 'operator/=', flt=flt + 'operator/=', **common)], H)]
@@ -230,8 +236,122 @@ def vgrad_targets():
             Target('grads_do_vgrad', [gdo, ggr()], H, replace=['grads_gradients']), Target('grads_gradients', [ggr()], H)]
 
 
+TK_TYPES = [(r'^nano::linear::function_t$|^nano::gboost::(bias|scale|grads)_function_t$', 'struct nv_tfun'),
+            (r'^nano::(linear|gboost)::accumulators_t$|^std::vector<nano::(linear|gboost)::accumulator_t', 'struct nv_taccs'),
+            (r'^nano::(linear|gboost)::accumulator_t$|__alloc_traits<.*accumulator_t.*::value_type$', 'struct nv_tacc'),
+            (r'^nano::loss_t$', 'struct nv_loss'), (r'^nano::tensor_range_t$', 'struct nv_range'), (r'^nano::cluster_t$', 'struct nv_cluster'),
+            (r'^nano::indices_t$|tensor_t<nano::tensor_vector_storage_t, long, 1', 'struct nv_samples'),
+            (r'^nano::(flatten|targets)_iterator_t$', 'struct nv_titer'),
+            (r'Eigen::|CwiseBinaryOp<|CwiseUnaryOp<|ArrayWrapper<|ArrayBase<|DenseBase<|MatrixBase<|^(const )?Product<|VectorwiseOp<|Transpose', 'struct nv_tt'),
+            (r'^nano::(vector_c?map_t|vector_t|tensor\dd_(c?map_)?t)$|^(const )?(nano::)?tensor_c?map_t<double, \dUL>$|tensor_t<nano::tensor_(carray|marray|vector)_storage_t, double, \d', 'struct nv_tt')]
+TK_MEMBERS = [(r'^value\|nano::loss_t', 'nv_loss_value({self}, {0}, {1}, {&2})'), (r'^vgrad\|nano::loss_t', 'nv_loss_vgrad({self}, {0}, {1}, {&2})'),
+              (r'^sum\|nano::tensor_t<', 'nv_sum({self})'), (r'^sum\|.*VectorwiseOp', 'nv_colsum({*self})'), (r'^colwise\|', 'nv_view_v({*self})'),
+              (r'^matrix\|', 'nv_view({self})'), (r'^vector\|', 'nv_view({self})'), (r'^transpose\|', 'nv_transpose({self})'),
+              (r'^reshape\|', 'nv_reshape({self}, {0})'), (r'^size\|nano::tensor_range_t', '({self}->m_end - {self}->m_begin)'),
+              (r'^begin\|nano::tensor_range_t', '{self}->m_begin'), (r'^end\|nano::tensor_range_t', '{self}->m_end'),
+              (r'^size\|nano::tensor_base_t<double, \d, true>', '{self}->rows')]
+TK_CALLS = [(r'^operator\[\]\|std::vector<nano::(linear|gboost)::accumulator_t>::reference', '(*nv_tacc_at({&0}, {1}))'),
+            (r'^predict\|', 'nv_predict({&0}, {&1}, {&2}, {&3})'), (r'^make_range\|', 'nv_mk_range({0}, {1})'),
+            (r'^ctor\|nano::tensor[1-4]d_cmap_t\||^ctor\|nano::tensor_t<nano::tensor_carray_storage_t, double, \d>\|', '{0}'),
+            (r'^operator\+=\|', 'nv_add_to({0}, {1})'), (r'^operator\*\|Product<', 'nv_matmul({0}, {&1})')]
+
+
+def _root_lvalue(n):
+    """the lvalue a by-value copy of a tensor MAP shares its storage with (looking through copy constructions)"""
+    from cxx2c import unwrap
+    v = unwrap(n)
+    while v.get('kind') in ('CXXConstructExpr', 'MaterializeTemporaryExpr', 'CXXBindTemporaryExpr') and len(v.get('inner', [])) == 1:
+        v = unwrap(v['inner'][0])
+    return v
+
+
+def loss_hook(value_stub, vgrad_stub):
+    """loss.value(targets, outputs, values) / loss.vgrad(..): the third argument is a map passed by value that shares the storage of
+    the object it was copied from: the kernel writes THERE -- pass that object's address (a prvalue slice: a temporary)"""
+    def h(P, n):
+        if n.get('kind') != 'CXXMemberCallExpr':
+            return None
+        me = n['inner'][0]
+        if me.get('kind') != 'MemberExpr' or me.get('name') not in ('value', 'vgrad') or 'loss_t' not in qual_of(me['inner'][0]) or len(n['inner']) != 4:
+            return None
+        dst = _root_lvalue(n['inner'][3])
+        stub = value_stub if me['name'] == 'value' else vgrad_stub
+        P.note(f'loss.{me["name"]}(targets, outputs, map) -> {stub}(&loss, targets, outputs, &storage)')
+        return f'{stub}({P.addr(me["inner"][0])}, {P.expr(n["inner"][1])}, {P.expr(n["inner"][2])}, {P.addr(dst)})'
+    return h
+
+
+def rows_assign_hook(P, n):
+    """<local>.reshape(R, -1).matrix().rowwise() = rhs  ->  nv_set_all_rows(&local, R, rhs);   <local>.vector(K) = rhs  ->  nv_set_row(&local, K, rhs)
+    (an assignment through a chain of Eigen views writes into the storage of the local map the chain starts from)"""
+    from cxx2c import unwrap
+    if n.get('kind') != 'CXXOperatorCallExpr' or unwrap(n['inner'][0]).get('referencedDecl', {}).get('name') != 'operator=':
+        return None
+    lhs = _root_lvalue(n['inner'][1])
+    chain = []
+    while lhs.get('kind') == 'CXXMemberCallExpr':
+        me = lhs['inner'][0]
+        chain.append((me.get('name'), lhs['inner'][1:]))
+        lhs = _root_lvalue(me['inner'][0])
+    if lhs.get('kind') != 'DeclRefExpr' or not chain:
+        return None
+    names = [c[0] for c in chain]
+    if names == ['rowwise', 'matrix', 'reshape']:
+        P.note('local.reshape(R, -1).matrix().rowwise() = rhs -> nv_set_all_rows')
+        return f'nv_set_all_rows({P.addr(lhs)}, {P.expr(chain[2][1][0])}, {P.expr(n["inner"][2])})'
+    if names == ['vector'] and len(chain[0][1]) == 1:
+        P.note('local.vector(K) = rhs -> nv_set_row')
+        return f'nv_set_row({P.addr(lhs)}, {P.expr(chain[0][1][0])}, {P.expr(n["inner"][2])})'
+    return None
+
+
+def row_hook(P, n):
+    """tensor.vector(k) with one argument: row k of the tensor (the 0-argument form is the whole tensor as a vector)"""
+    if n.get('kind') != 'CXXMemberCallExpr':
+        return None
+    me = n['inner'][0]
+    if me.get('kind') != 'MemberExpr' or me.get('name') != 'vector' or len(n['inner']) != 2:
+        return None
+    obj = me['inner'][0]
+    return f'nv_row({P.expr(obj) if me.get("isArrow") else P.addr(obj)}, {P.expr(n["inner"][1])})'
+
+
+def cell_add_hook(P, n):
+    """acc.m_gb1(group) += v  ->  nv_gb_cell_add(acc.m_gb1, group, v)   (one element of a partial-sum vector)"""
+    from cxx2c import unwrap
+    if n.get('kind') != 'CompoundAssignOperator' or n.get('opcode') != '+=':
+        return None
+    lhs = unwrap(n['inner'][0])
+    if lhs.get('kind') != 'CXXOperatorCallExpr' or unwrap(lhs['inner'][0]).get('referencedDecl', {}).get('name') != 'operator()' or len(lhs['inner']) != 3:
+        return None
+    return f'nv_gb_cell_add({P.expr(lhs["inner"][1])}, {P.expr(lhs["inner"][2])}, {P.expr(n["inner"][1])})'
+
+
+def task_targets():
+    H = 'specs/C09/task.h'
+    common = dict(self_struct='struct nv_tfun', types=TK_TYPES, members=TK_MEMBERS, calls=TK_CALLS)
+    lt = Fn('linear_task', 'src/linear/function.cpp', 'do_vgrad', flt='linear::function_t::do_vgrad', lambda_index=0,
+            extra_params=['struct nv_tt W', 'struct nv_tt b', 'struct nv_tt gx'], **common)
+    GTU = 'src/gboost/function.cpp'
+    gmembers = [(r'^slice\|', 'nv_slot({self}, {&0})'), (r'^update\|nano::gboost::accumulator_t', 'nv_acc_update({self}, {0})'),
+                (r'^transpose\|', 'nv_transpose_any({self})')] + TK_MEMBERS
+    gcalls = [(r'^ctor\|(nano::)?tensor_c?map_t<double, \dUL>\||^ctor\|nano::tensor_t<nano::tensor_(carray|marray)_storage_t, double, \d>\|', '{0}')] + TK_CALLS
+    gcommon = dict(self_struct='struct nv_tfun', types=TK_TYPES, members=gmembers, calls=gcalls, hooks=[loss_hook('nv_loss_value_g', 'nv_loss_vgrad_g'), rows_assign_hook])
+    bt = Fn('bias_task', GTU, 'do_vgrad', flt='bias_function_t::do_vgrad', lambda_index=0,
+            extra_params=['struct nv_tt x', 'struct nv_tt gx', 'int64_t tsize'], **gcommon)
+    gt = Fn('grads_task', GTU, 'gradients', flt='grads_function_t::gradients', lambda_index=0, extra_params=['const struct nv_tt* outputs'], **gcommon)
+    scalls = [(r'^operator\(\)\|.*\|nano::indices_t|^operator\(\)\|.*tensor_vector_storage_t, long, 1', 'nv_sample_at({&0}, {1})'),
+              (r'^operator\(\)\|.*\|nano::vector_cmap_t|^operator\(\)\|.*tensor_carray_storage_t, double, 1', 'nv_param_at({&0}, {1})'),
+              (r'^operator\*\|(const )?CwiseBinaryOp<internal::scalar_product_op', 'nv_row_scale({0}, {1})'), (r'^operator\+\|', 'nv_row_sum({0}, {1})')] + gcalls
+    smembers = [(r'^group\|nano::cluster_t', 'nv_group_of({0})'), (r'^dot\|', 'nv_dot({*self}, {0})')] + gmembers
+    st = Fn('scale_task', GTU, 'do_vgrad', flt='scale_function_t::do_vgrad', lambda_index=0, self_struct='struct nv_tfun', types=TK_TYPES,
+            members=smembers, calls=scalls, hooks=[loss_hook('nv_loss_value_g', 'nv_loss_vgrad_g'), rows_assign_hook, row_hook, cell_add_hook],
+            extra_params=['struct nv_tt x', 'struct nv_tt gx', 'const struct nv_samples* samples'])
+    return [Target('linear_task', [lt], H), Target('bias_task', [bt], H), Target('grads_task', [gt], H), Target('scale_task', [st], H)]
+
+
 def build(tier):
-    targets = reduce_targets() + acc_targets() + iter_targets() + access_targets() + vgrad_targets()
+    targets = reduce_targets() + acc_targets() + iter_targets() + access_targets() + vgrad_targets() + task_targets()
     import reg_smt
     bounded, fns = [], []
     for n in (1, 2, 3):
